@@ -66,7 +66,7 @@ WEIGHTS = {
     # profile: weights of top-level commands
     "queue": dict(listen=10, listenfront=3, listenbefore=4, unlisten=6, hasany=2, dispatch=5, enqueue=26, process=8,
                   processone=7, processif=7, processuntil=5, peek=4, take=4, clear=2, emptyq=4, addfilter=2, removefilter=1),
-    "dispatch": dict(listencond=6, listenadapt=5, listen=18, listenfront=8, listenbefore=10, unlisten=12, hasany=5, dispatch=30, enqueue=4, process=3,
+    "dispatch": dict(listencounted=6, listencondrem=5, listencond=6, listenadapt=5, listen=18, listenfront=8, listenbefore=10, unlisten=12, hasany=5, dispatch=30, enqueue=4, process=3,
                      addfilter=1),
     "filter": dict(listencond=5, listenadapt=3, listen=10, listenfront=2, unlisten=4, dispatch=22, enqueue=14, process=8, processone=4, processif=3,
                    addfilter=14, removefilter=8, emptyq=1),
@@ -92,9 +92,12 @@ def _cmd(rng, profile, nk, issued, cbs, preds, filters, inside=False, allow_proc
         # re-entrant dispatch / processing only where the caller guarantees termination
         # (listeners that add listeners every time they run make the lists grow exponentially)
         for k in ("process", "processone", "processif", "processuntil", "dispatch", "listen", "listenfront",
-                  "listenbefore", "addfilter", "enqueue", "listencond", "listenadapt"):
+                  "listenbefore", "addfilter", "enqueue", "listencond", "listenadapt", "listencounted", "listencondrem"):
             if k in w:
                 w[k] = w[k] * (1.0 if k == 'enqueue' else 0.5) if allow_proc else 0
+        # a remover-wrapped callback id is added at most once per script (the wrappers count per listener, the model per callback id)
+        w.pop("listencounted", None)
+        w.pop("listencondrem", None)
         w["emptyq"] = w.get("emptyq", 0) + 6
         w["unlisten"] = w.get("unlisten", 0) + 8
     ops = [o for o in w if w[o] > 0]
@@ -109,6 +112,14 @@ def _cmd(rng, profile, nk, issued, cbs, preds, filters, inside=False, allow_proc
         return "listencond %d %d %d %d" % (k, cb, m, cb % m)
     if op == "listenadapt":
         return "listenadapt %d %d" % (k, rng.choice(cbs))
+    if op == "listencounted":
+        # callbacks 50..54: added through CounterRemover (dispatcher / queue target); the trigger count is fixed per callback id
+        cb = 50 + rng.randrange(5)
+        return "listencounted %d %d %d" % (k, cb, [1, 2, 3, 0, -2147483648][cb - 50])
+    if op == "listencondrem":
+        cb = 55 + rng.randrange(5)
+        m = 2 + cb % 3
+        return "listencondrem %d %d %d %d" % (k, cb, m, cb % m)
     if op == "listenbefore":
         return "listenbefore %d %d %s" % (k, rng.choice(cbs), _handle(rng, issued, inside))
     if op == "unlisten":
@@ -165,9 +176,15 @@ def gen_script(rng, name, profile, max_ops=50):
         issued += 1
         for _ in range(rng.randint(18, 40)):
             lines.append("do enqueue %d %d" % (rng.randrange(min(nk, 2)), rng.randint(0, 50)))
+    used_wrapped = set()
     for _ in range(rng.randint(6, max_ops)):
         c = _cmd(rng, profile, nk, issued, cbs, preds, filters)
-        if c.split()[0] in ("listen", "listenfront", "listenbefore", "addfilter", "listencond", "listenadapt"):
+        if c.split()[0] in ("listencounted", "listencondrem"):
+            if c.split()[2] in used_wrapped:
+                c = "listen %s %d" % (c.split()[1], rng.choice(cbs))
+            else:
+                used_wrapped.add(c.split()[2])
+        if c.split()[0] in ("listen", "listenfront", "listenbefore", "addfilter", "listencond", "listenadapt", "listencounted", "listencondrem"):
             issued += 1
         lines.append("do " + c)
     lines.append("do process")
